@@ -246,6 +246,40 @@ func body(s *simrt.Sim, tier string) {
 	}
 	if !s.Join(time.Hour, snames...) || returned != nstop {
 		s.Fail("stop-hang", "Stop did not return\n"+s.Dump())
+		return
+	}
+	// A stopped cache has lost its cleaner, nothing else: Set, Get and Delete go on, and Get still never returns
+	// a superseded, deleted or expired value (one caller, exact reference).
+	if s.Choose(2, "afterStop") == 0 {
+		s.Go("afterstop", func() {
+			for j, n := 0, 1+s.Choose(3, "afterStop.n"); j < n; j++ {
+				key := keys[s.Choose(len(keys), "afterStop.key")]
+				val++
+				ttl := int64(1 + s.Choose(3, "afterStop.ttl"))
+				t0 := time.Now()
+				cache.Set(key, val, ttl)
+				// (the scheduler's injected delays may add up to more than a short ttl: a miss is wrong only if
+				// less than the ttl has passed when Get returns)
+				if got, hit := cache.Get(key); (hit && got != val) || (!hit && time.Since(t0) < capTTL(ttl, maxTTL)) {
+					s.Fail("after-stop-set-lost", fmt.Sprintf("after Stop: Set(%s, v%d, ttl %ds) then Get returned hit=%v v%d", key, val, ttl, hit, got))
+				}
+				switch s.Choose(3, "afterStop.then") {
+				case 0:
+					cache.Delete(key)
+					if got, hit := cache.Get(key); hit {
+						s.Fail("after-stop-deleted-value", fmt.Sprintf("after Stop: Delete(%s) then Get returned v%d", key, got))
+					}
+				case 1:
+					s.Sleep(capTTL(ttl, maxTTL))
+					if got, hit := cache.Get(key); hit {
+						s.Fail("after-stop-expired-value", fmt.Sprintf("after Stop: Get(%s) returned v%d %v after it was set with that ttl", key, got, capTTL(ttl, maxTTL)))
+					}
+				}
+			}
+		})
+		if !s.Join(time.Hour, "afterstop") {
+			s.Fail("after-stop-hang", "operations on a stopped cache did not return\n"+s.Dump())
+		}
 	}
 }
 
